@@ -44,7 +44,7 @@ def limit(repo):
 PUSH_GROUP = ('let count = count . max ( 0 ) as usize ; '
               'if rec . chars ( ) . count ( ) . saturating_add ( count . saturating_mul ( group . chars ( ) . count ( ) ) ) > MAX_MACRO_SIZE { '
               'return Err ( ParserError :: Error ( format ! ( "macro larger than {MAX_MACRO_SIZE} characters" ) ) . into ( ) ) ; } '
-              '( 0 .. count ) . for_each ( | _ | rec . push_str ( group ) ) ; Ok ( ( ) )')
+              'rec . push_str ( & group . repeat ( count ) ) ; Ok ( ( ) )')
 
 def size_limit(repo):
     src = Source(os.path.join(repo, 'src/parsers/ansi/mod.rs'))
